@@ -251,7 +251,7 @@ class Recorder:
                 chk = 1000
             c.update(mode=_world.MODE_R[rc.default_transmission_mode], closure=bool(rc.closure_requested), segLen=rc.max_file_segment_len or 0,
                      maxPkt=rc.max_packet_len, crc=bool(rc.crc_on_transmission), chk=_world.CHK_R.get(rc.crc_type, "NULL"),
-                     ackInt=int(round(rc.positive_ack_timer_interval_seconds * 1000)), ackLim=rc.positive_ack_timer_expiration_limit,
+                     ackInt=int(round(rc.positive_ack_timer_interval_seconds * 1000)), ackIntD=0, ackLim=rc.positive_ack_timer_expiration_limit,
                      nakInt=int(round(rc.nak_timer_interval_seconds * 1000)), nakLim=rc.nak_timer_expiration_limit, chkInt=chk,
                      chkLim=rc.check_limit, immNak=bool(rc.immediate_nak_mode), disp=bool(rc.disposition_on_cancellation))
         rid = rc.entity_id if rc is not None else lid
